@@ -393,6 +393,12 @@ func genHostile(rng *common.RNG) *hostileCase {
 	} else {
 		h.limit = hostileLimits[rng.Intn(len(hostileLimits))]
 	}
+	strat := rng.Intn(8)
+	if (strat == 2 || strat == 3) && h.limit == 0 && rng.Chance(2, 3) {
+		// a frame that lands on the 64 MiB default makes Decode clear 64 MiB:
+		// keep that boundary case, but rarer (it dominates the run time)
+		h.limit = 1 << 20
+	}
 	eff := h.limit
 	if eff == 0 {
 		eff = defaultLimit
@@ -404,7 +410,6 @@ func genHostile(rng *common.RNG) *hostileCase {
 	}
 	h.sizes = make([]uint32, supplied)
 	hl := tableLen(nsegs)
-	strat := rng.Intn(8)
 	if supplied == 0 {
 		strat = 0
 	}
@@ -610,6 +615,7 @@ func (c *ctx) runHostile(rng *common.RNG) {
 		}
 		if delta > eff {
 			rec.Count("hostile_alloc_between_limit_and_bound", 1)
+			rec.Max("max_decode_alloc_over_limit_bytes", int64(delta-eff))
 		}
 		allocHousekeeping()
 		if h.limit != 0 && h.limit < 8 {
@@ -752,7 +758,7 @@ func (c *ctx) runUnmarshal(rng *common.RNG) {
 		runtime.ReadMemStats(&ms1)
 		delta = ms1.TotalAlloc - ms0.TotalAlloc
 	})
-	rec.Count("unmarshal_calls", 1)
+	rec.Count("unmarshal_hostile_calls", 1)
 	rec.Count("unmarshal_frame_"+fst.String(), 1)
 	if c.panicked(p, "Unmarshal", "hostile", inp) {
 		return
@@ -763,8 +769,8 @@ func (c *ctx) runUnmarshal(rng *common.RNG) {
 	if delta > bound {
 		c.viol("alloc/Unmarshal/hostile", fmt.Sprintf("Unmarshal of %d bytes allocated %d bytes (bound 8*len+1024 = %d)", len(data), delta, bound), desc, inp)
 	}
-	if len(data) > 0 {
-		rec.Max("max_unmarshal_alloc_per_input_byte_x100", int64(delta*100/uint64(len(data))))
+	if len(data) >= 4096 {
+		rec.Max("max_unmarshal_alloc_per_input_byte_x100_inputs_ge_4096", int64(delta*100/uint64(len(data))))
 	}
 	allocHousekeeping()
 	if err == nil {
